@@ -111,6 +111,29 @@ impl C04 {
                     return;
                 }
             }
+            // (a3) the legitimate holder of THIS position presents the lock record of ANOTHER position of the same pool:
+            // the other holder's record must not change without that holder
+            if let (Some(li), true) = (c.idx("lock_config"), *slot == "position_authority") {
+                if let Some(a) = v.pre.get(&v.ix.accounts[li].pubkey) {
+                    if a.owner == ix::wp() && a.data.len() >= 72 {
+                        let mut d = (*a.data).clone();
+                        d[8..40].copy_from_slice(scratch_key(salt, 4201).as_ref()); // another position
+                        d[40..72].copy_from_slice(scratch_key(salt, 4202).as_ref()); // its holder
+                        let fk = scratch_key(salt, 4203);
+                        let mut f = base.clone();
+                        f.put(fk, Account::new(a.lamports, d.clone(), a.owner));
+                        let mut ixn = v.ix.clone();
+                        ixn.accounts[li].pubkey = fk;
+                        let r = exec(&f, ixn);
+                        cov.eval(format!("{}|lock_config|record_of_another_position", name));
+                        self.cell(format!("{} / lock_config / lock record of another position of the same pool", name), !r.ok);
+                        if r.ok {
+                            out.push(v04("foreign_record_changed", idx, format!("{}: succeeded with the lock record of another position in the `lock_config` slot (that holder did not sign)", name)));
+                            return;
+                        }
+                    }
+                }
+            }
             // (a2) a stranger signs and names token accounts of their own as the destination of whatever is paid out
             {
                 const PAYOUT_SLOTS: &[&str] = &["token_owner_account_a", "token_owner_account_b", "reward_owner_account", "token_destination_a", "token_destination_b", "destination_token_account"];
@@ -256,6 +279,37 @@ impl C04 {
                                 self.cell(format!("{} / {} / holder of the neighbouring role in the same {}", name, slot, kslot), !r.ok);
                                 if r.ok {
                                     out.push(v04("neighbouring_role_accepted", idx, format!("{}: succeeded for a key that holds only the other authority field(s) of the `{}` account, signing as `{}`", name, kslot, slot)));
+                                    return;
+                                }
+                            }
+                        }
+                    }
+                }
+            }
+            // (b4) pools created by older program versions keep the former authority key in the spare reward slots 1 and 2
+            // (until someone runs the migration). A key that only sits there must not pass as the reward authority,
+            // whatever reward index the call names.
+            if *slot == "reward_authority" {
+                if let Some(wk) = c.acct("whirlpool") {
+                    if let Some(a) = v.pre.get(&wk) {
+                        if a.data.len() >= 621 && a.data[333..365] == right.to_bytes() {
+                            let mut d = (*a.data).clone();
+                            d[461..493].copy_from_slice(attacker.as_ref());
+                            d[589..621].copy_from_slice(attacker.as_ref());
+                            let mut f = base.clone();
+                            f.put(wk, Account::new(a.lamports, d, a.owner));
+                            for ri in 0u8..3 {
+                                let mut ixn = v.ix.clone();
+                                ixn.accounts[i].pubkey = attacker;
+                                ixn.accounts[i].is_signer = true;
+                                if ixn.data.len() > 8 {
+                                    ixn.data[8] = ri;
+                                }
+                                let r = exec(&f, ixn);
+                                cov.eval(format!("{}|{}|key_in_spare_reward_slot|index{}", name, slot, ri));
+                                self.cell(format!("{} / {} / key held only in the spare reward slots (legacy pool)", name, slot), !r.ok);
+                                if r.ok {
+                                    out.push(v04("neighbouring_role_accepted", idx, format!("{}: succeeded (reward index {}) for a key that is only stored in the pool's spare reward slots 1 / 2, not as the reward authority", name, ri)));
                                     return;
                                 }
                             }
@@ -471,7 +525,7 @@ const FUND_MOVING: &[&str] = &[
     "swap", "swap_v2", "two_hop_swap", "two_hop_swap_v2", "increase_liquidity", "increase_liquidity_v2", "decrease_liquidity", "decrease_liquidity_v2",
     "increase_liquidity_by_token_amounts_v2", "reposition_liquidity_v2", "collect_fees", "collect_fees_v2", "collect_reward", "collect_reward_v2",
     "collect_protocol_fees", "collect_protocol_fees_v2", "update_fees_and_rewards", "set_reward_emissions", "set_reward_emissions_v2", "initialize_reward", "initialize_reward_v2",
-    "set_adaptive_fee_constants", "reset_position_range", "lock_position",
+    "set_adaptive_fee_constants", "reset_position_range", "lock_position", "transfer_locked_position",
     "set_fee_rate", "set_protocol_fee_rate", "set_fee_rate_by_delegated_fee_authority", "set_reward_authority", "set_reward_authority_by_super_authority",
 ];
 
@@ -577,6 +631,33 @@ impl C15 {
                 }
             };
             if kind == Kind::Other {
+                // any other program-owned record type (lock config, token badge, config extension, ...): another record
+                // of the same type must not do
+                let Some(a) = l.get(&m.pubkey) else { continue };
+                if a.owner != ix::wp() || a.data.len() < 8 {
+                    continue;
+                }
+                let mut others: Vec<(Pubkey, Ledger)> = l.accts.iter().filter(|(k2, a2)| **k2 != m.pubkey && a2.owner == ix::wp() && a2.data.len() >= 8 && a2.data[..8] == a.data[..8]).map(|(k2, _)| (*k2, l.clone())).take(2).collect();
+                if a.data.len() >= 40 {
+                    // a sibling record: the same bytes, but its first key field (what it belongs to) names something else
+                    let mut d = (*a.data).clone();
+                    d[8..40].copy_from_slice(scratch_key(salt, 6400 + i as u64).as_ref());
+                    let fk = scratch_key(salt, 6500 + i as u64);
+                    let mut f = l.clone();
+                    f.put(fk, Account::new(a.lamports, d, a.owner));
+                    others.push((fk, f));
+                }
+                for (sub, f) in others {
+                    let mut ixn = v.ix.clone();
+                    ixn.accounts[i].pubkey = sub;
+                    let r = exec(&f, ixn);
+                    cov.eval(format!("{}|{}|another record of the same type", name, slot));
+                    self.cell(format!("{} / {} / another record of the same type", name, slot), !r.ok);
+                    if r.ok {
+                        out.push(v15("foreign_account_accepted", idx, format!("{}: succeeded with another record of the same type ({}) in the `{}` slot instead of {}", name, sub, slot, m.pubkey)));
+                        return;
+                    }
+                }
                 continue;
             }
             // initialise-reward names a pool and otherwise only fresh / pool-independent accounts:
